@@ -119,7 +119,7 @@ func history(c *harness.Ctx, id string, r *rand.Rand, forced bool) {
 		for k := 0; k < nRefresh && stuck.Load() == nil; k++ {
 			var o relaycommon.Outcome
 			in := regIn{Op: "refresh", ID: -1}
-			kind := []string{"valid", "valid", "valid", "error", "malformed", "empty", "nil", "unresolvable"}[rr.Intn(8)]
+			kind := []string{"valid", "valid", "valid", "valid", "error", "malformed", "empty", "nil", "unresolvable", "json-null", "json-array", "json-string", "json-empty-object", "json-version-only"}[rr.Intn(14)]
 			if forced {
 				kind = []string{"unresolvable", "valid", "error", "valid"}[k]
 			}
@@ -183,7 +183,9 @@ func history(c *harness.Ctx, id string, r *rand.Rand, forced bool) {
 					rec(g, regIn{Op: "read"}, call, got)
 				case 2: // auction for any validator (the unresolvable ones fail, and must still return)
 					v := rr.Intn(3)
-					if !timed(func() { _, _ = env.Svc.AuctionBlock(ctx, phase0.Slot(3200+rr.Intn(4)), phase0.Hash32{byte(g)}, accts[v].Pub48()) }) {
+					if !timed(func() {
+						_, _ = env.Svc.AuctionBlock(ctx, phase0.Slot(3200+rr.Intn(4)), phase0.Hash32{byte(g)}, accts[v].Pub48())
+					}) {
 						fail("auction did not return")
 						return
 					}
@@ -306,14 +308,14 @@ func run(c *harness.Ctx) {
 
 func main() {
 	harness.Main(&harness.Spec{
-		Property: "C12",
-		Level:    "fault_enumeration",
-		Rule:     "histories with one refreshing goroutine stepping through fetch outcomes {valid (unique id in the fee recipient), error, malformed, empty, nil, valid-but-unresolvable-for-some-validators} while 4-8 goroutines issue proposer-setting lookups, auctions (for resolvable and unresolvable validators) and registration rounds; every tenth history is the forced sequence [unresolvable document, auction for an unresolvable validator, valid document, ...]; porcupine check of the refresh/lookup history against a register, per-call watchdog, lock probe and final refresh at quiescence. distinct = (forced, set of outcome/operation classes seen, readers); non-trivial = >=4 classes",
-		Batches:  func(string) int { return 8 },
-		Parallel: 8,
-		Run:      run,
-		MinDistinct: 10,
+		Property:     "C12",
+		Level:        "fault_enumeration",
+		Rule:         "histories with one refreshing goroutine stepping through fetch outcomes {valid (unique id in the fee recipient), error, malformed, empty, nil, JSON null / array / string / empty object / unknown version, valid-but-unresolvable-for-some-validators} while 4-8 goroutines issue proposer-setting lookups, auctions (for resolvable and unresolvable validators) and registration rounds; every tenth history is the forced sequence [unresolvable document, auction for an unresolvable validator, valid document, ...]; porcupine check of the refresh/lookup history against a register, per-call watchdog, lock probe and final refresh at quiescence. distinct = (forced, set of outcome/operation classes seen, readers); non-trivial = >=4 classes",
+		Batches:      func(string) int { return 8 },
+		Parallel:     8,
+		Run:          run,
+		MinDistinct:  10,
 		ChildTimeout: func(string) time.Duration { return 40 * time.Minute },
-		Assumptions: []string{"a single goroutine refreshes, as in production (one periodic job)", "lookups recorded for the register are those of a validator whose settings every generated document resolves", "a call that does not return within 6 s (normal: microseconds) is reported as never returning"},
+		Assumptions:  []string{"a single goroutine refreshes, as in production (one periodic job)", "lookups recorded for the register are those of a validator whose settings every generated document resolves", "a call that does not return within 6 s (normal: microseconds) is reported as never returning"},
 	})
 }
